@@ -72,6 +72,12 @@ class ScalableDiscipline(Discipline):
 
     _ATTR_NOT_TO_SERIALIZE = Discipline._ATTR_NOT_TO_SERIALIZE.union(["scalable_model"])
 
+    __model_arguments: tuple[str, IODataset, Mapping[str, int], dict[str, Any]]
+    """The arguments used to create the scalable model.
+
+    The scalable model cannot be serialized, it is created again at deserialization.
+    """
+
     def __init__(
         self,
         name: str,
@@ -87,14 +93,24 @@ class ScalableDiscipline(Discipline):
                 If empty, use the original sizes.
             **parameters: The parameters for the model.
         """  # noqa: D205 D212
-        self.scalable_model = ScalableModelFactory().create(
-            name, data=data, sizes=sizes, **parameters
-        )
+        self.__model_arguments = (name, data, dict(sizes), parameters)
+        self.__create_scalable_model()
         super().__init__(self.scalable_model.name)
         self._initialize_grammars(data)
         self.io.input_grammar.defaults = self.scalable_model.default_input_data
         self.add_differentiated_inputs(self.io.input_grammar)
         self.add_differentiated_outputs(self.io.output_grammar)
+
+    def __create_scalable_model(self) -> None:
+        """Create the scalable model from the arguments passed at instantiation."""
+        name, data, sizes, parameters = self.__model_arguments
+        self.scalable_model = ScalableModelFactory().create(
+            name, data=data, sizes=sizes, **parameters
+        )
+
+    def __setstate__(self, state: StrKeyMapping) -> None:
+        super().__setstate__(state)
+        self.__create_scalable_model()
 
     def _initialize_grammars(self, data: IODataset) -> None:
         """Initialize input and output grammars from data names.
